@@ -269,11 +269,17 @@ def link_harness(name, variant, vdir, extra_libs=()):
     return exe
 
 
-def run_env(vdir):
+def run_env(vdir, mode=''):
     env = dict(os.environ)
     env.pop('LIBERASURECODE_WRITE_LEGACY_CRC', None)
     env['LD_LIBRARY_PATH'] = vdir
     env['ASAN_OPTIONS'] = 'detect_odr_violation=0:abort_on_error=0:exitcode=99:detect_leaks=1:allocator_may_return_null=1:handle_abort=1:detect_stack_use_after_return=0'
+    if os.environ.get('VERIF_ASAN_EXTRA'):
+        env['ASAN_OPTIONS'] += ':' + os.environ['VERIF_ASAN_EXTRA']
+    if mode.endswith('_noq'):
+        # modes run with the sanitizer's quarantine switched off: freed blocks are handed out again at once, as a plain
+        # allocator does, so that address re-use (a stale pointer or handle comparing equal to a new object) happens
+        env['ASAN_OPTIONS'] += ':quarantine_size_mb=0:thread_local_quarantine_size_kb=0'
     env['UBSAN_OPTIONS'] = 'print_stacktrace=1:halt_on_error=1:exitcode=99'
     env['LSAN_OPTIONS'] = 'exitcode=99:print_suppressions=0'
     env['TSAN_OPTIONS'] = 'exitcode=99:halt_on_error=0:second_deadlock_stack=1'
@@ -317,7 +323,7 @@ def plan(pid, tier):
     P['C04'] = lambda: (sweep_jobs('h_format', 'selftest', 1) + sweep_jobs('h_format', 'c04_matrix', 12) + rc_jobs('h_format', 'c04_parity', 4, 2500 if q else 30000) + sweep_jobs('h_format', 'c04_blocking', 4 if q else 8)
                         + rc_jobs('h_format', 'c04_parity_mt', 3, 120 if q else 2500))
     P['C05'] = lambda: (sweep_jobs('h_format', 'selftest', 1) + sweep_jobs('h_format', 'c05_tables', 1) + sweep_jobs('h_format', 'c05_encode', 2) + sweep_jobs('h_format', 'c05_encode', 1, variant='asan-nosse')
-                        + sweep_jobs('h_format', 'c05_unsupported', 1)
+                        + sweep_jobs('h_format', 'c05_unsupported', 1) + sweep_jobs('h_format', 'c05_direct', 3) + sweep_jobs('h_format', 'c05_direct', 1, variant='asan-nosse')
                         + sweep_jobs('h_codec', 'c05_decode_sweep', 6 if q else 8) + sweep_jobs('h_codec', 'c05_decode_sweep', 4 if q else 8, variant='asan-nosse') + sweep_jobs('h_codec', 'c05_mt', 2 if q else 4)
                         + sweep_jobs('h_codec', 'c05_large', 4) + sweep_jobs('h_codec', 'c05_large', 2, variant='asan-nosse')
                         + sweep_jobs('h_codec', 'c05_allocfail', 2) + sweep_jobs('h_codec', 'c05_allocfail', 1, variant='asan-nosse'))
@@ -330,9 +336,9 @@ def plan(pid, tier):
     P['C12'] = lambda: rc_jobs('h_header', 'c12', 16, 8000 if q else 80000) + ([] if q else fuzz_jobs('fuzz_header', 'C12', 6, 240))
     P['C13'] = lambda: (sweep_jobs('h_args', 'c13_grid', 4) + rc_jobs('h_args', 'c13_grid_rc', 2, 1500 if q else 30000)
                         + sweep_jobs('h_args', 'c13_box', 6 if q else 16) + rc_jobs('h_args', 'c13_box_rc', 4, 3000 if q else 60000))
-    P['C14'] = lambda: (rc_jobs('h_state', 'c14', 8, 400 if q else 6000) + sweep_jobs('h_state', 'c14_exhaustive', 8) + ([] if q else fuzz_jobs('fuzz_api', 'C14', 6, 240)))
+    P['C14'] = lambda: (rc_jobs('h_state', 'c14', 8, 400 if q else 6000) + rc_jobs('h_state', 'c14_noq', 4, 400 if q else 6000) + sweep_jobs('h_state', 'c14_exhaustive', 8) + ([] if q else fuzz_jobs('fuzz_api', 'C14', 6, 240)))
     P['C15'] = lambda: rc_jobs('h_state', 'c15', 12, 2500 if q else 40000) + sweep_jobs('h_state', 'c15_guard_sweep', 4 if q else 12)
-    P['C16'] = lambda: (rc_jobs('h_state', 'c16', 14, 1200 if q else 20000) + sweep_jobs('h_state', 'c16_pairs', 2) + ([] if q else fuzz_jobs('fuzz_api', 'C16', 8, 300)))
+    P['C16'] = lambda: (rc_jobs('h_state', 'c16', 12, 1200 if q else 20000) + rc_jobs('h_state', 'c16_noq', 2, 1200 if q else 20000) + sweep_jobs('h_state', 'c16_pairs', 2) + ([] if q else fuzz_jobs('fuzz_api', 'C16', 8, 300)))
     P['C17'] = lambda: (sweep_jobs('h_fault', 'c17_single', 6) + rc_jobs('h_fault', 'c17', 10, 400 if q else 6000))
     P['C19'] = lambda: (rc_jobs('h_codec', 'c19', 6, 1500 if q else 30000) + sweep_jobs('h_codec', 'c19_sweep', 6 if q else 12) + rc_jobs('h_codec', 'c19_inv', 3, 800 if q else 10000) + sweep_jobs('h_codec', 'c19_singular', 3 if q else 8)
                         + sweep_jobs('h_needed', 'c06_rs_sweep', 2 if q else 8, extra=['--only_isa', '1']) + sweep_jobs('h_codec', 'c19_mt', 4))
@@ -395,7 +401,7 @@ def run_job(job, vdirs, seed, tier, rundir, pid, exclude):
     t0 = time.time()
     log = open(os.path.join(rundir, label + '.log'), 'w')
     try:
-        r = subprocess.run(argv, stdout=subprocess.PIPE, stderr=log, text=True, env=run_env(vdir), cwd=VERIF,
+        r = subprocess.run(argv, stdout=subprocess.PIPE, stderr=log, text=True, env=run_env(vdir, job['mode']), cwd=VERIF,
                            timeout=job.get('timeout', 7200 if tier == 'thorough' else 900))
         rc, stdout = r.returncode, r.stdout
         timed_out = False
@@ -467,7 +473,7 @@ def replay_case(pid, path, vdirs, times=3):
     for _ in range(times):
         try:
             r = subprocess.run([exe, '--prop', pid, '--replay', path], stdout=subprocess.PIPE, stderr=subprocess.PIPE, text=True,
-                               env=run_env(vdir), cwd=VERIF, timeout=90)
+                               env=run_env(vdir, mode), cwd=VERIF, timeout=90)
             if r.returncode != 0:
                 fails += 1
         except subprocess.TimeoutExpired:
@@ -483,7 +489,7 @@ for _m in ['c06', 'c06_xor_sweep', 'c06_rs_sweep']:
     MODE_HARNESS[_m] = ('h_needed', 'asan')
 for _m in ['c13_grid', 'c13_grid_rc', 'c13_box', 'c13_box_rc']:
     MODE_HARNESS[_m] = ('h_args', 'asan')
-for _m in ['c14', 'c14_exhaustive', 'c15', 'c15_guard_sweep', 'c16', 'c16_pairs']:
+for _m in ['c14', 'c14_noq', 'c14_exhaustive', 'c15', 'c15_guard_sweep', 'c16', 'c16_noq', 'c16_pairs']:
     MODE_HARNESS[_m] = ('h_state', 'asan')
 for _m in ['c17', 'c17_single']:
     MODE_HARNESS[_m] = ('h_fault', 'asan')
@@ -491,7 +497,7 @@ MODE_HARNESS['c18_tsan'] = ('t_race', 'tsan')
 MODE_HARNESS['c18_sched'] = ('h_sched', 'asan')
 MODE_HARNESS['c18_sched_exhaustive'] = ('h_sched', 'asan')
 MODE_HARNESS['c08_sched'] = ('h_sched', 'asan')
-for _m in ['c07', 'c07_sweep', 'c08', 'c08_sweep', 'c04_matrix', 'c04_parity', 'c04_parity_mt', 'c04_blocking', 'selftest', 'c05_tables', 'c05_encode', 'c05_unsupported']:
+for _m in ['c07', 'c07_sweep', 'c08', 'c08_sweep', 'c04_matrix', 'c04_parity', 'c04_parity_mt', 'c04_blocking', 'c05_direct', 'selftest', 'c05_tables', 'c05_encode', 'c05_unsupported']:
     MODE_HARNESS[_m] = ('h_format', 'asan')
 for _m in ['c01_large', 'c02_large', 'c03_large', 'c05_large', 'c05_allocfail', 'c02_allocfail', 'c20_allocfail', 'c05_mt', 'c01_mt', 'c19_mt', 'c19', 'c19_sweep', 'c19_inv', 'c19_singular', 'c05_decode_sweep', 'c01', 'c01_xor_sweep', 'c01_rs_sweep', 'c01_isa_sweep', 'c02', 'c02_subsets', 'c02_band', 'c03', 'c03_xor_sweep', 'c03_rs_sweep', 'c20']:
     MODE_HARNESS[_m] = ('h_codec', 'asan')
@@ -703,7 +709,7 @@ def main_replay(pid, path):
         print('BUILD-ERROR', str(e)[:4000])
         return 2
     exe = os.path.join(vdirs[variant], harness)
-    r = subprocess.run([exe, '--prop', pid, '--replay', path], env=run_env(vdirs[variant]), cwd=VERIF)
+    r = subprocess.run([exe, '--prop', pid, '--replay', path], env=run_env(vdirs[variant], mode), cwd=VERIF)
     if r.returncode != 0:
         print('VIOLATION property=%s replay=%s' % (pid, path))
         return 1
